@@ -27,10 +27,11 @@ def run(ctx):
         validated, events, reexecs, fchecks, samples = 0, 0, 0, 0, []
         for i, seed in enumerate(runs):
             sub = dbdir / ("r%d" % i); sub.mkdir()
-            followers = "leveldb,pebble" if (quick or i % 2 == 0) else "pebble,memory"
+            # nosnap = memory database with state snapshots off (reads only what the committed trie holds: a node right after a restart / state sync)
+            followers = "leveldb,pebble,nosnap" if (quick or i % 2 == 0) else "pebble,memory,nosnap"
             tr, info = zc.run_chaindrv(ctx, drv, "c06-%d" % i, seed, steps, sub,
                                        extra=["-reexec", "1,4,16" if quick else "1,2,4,16,3", "-followers", followers,
-                                              "-trimdepth", 4, "-lockups"] + (["-index"] if (not quick and i % 3 == 2) else []))
+                                              "-trimdepth", 4, "-lockups", "-chained", 8] + (["-index"] if (not quick and i % 3 == 2) else []))
             for pr in info.get("problems") or []:
                 if pr["kind"] in C06_PROBLEMS:
                     vlib.report(ctx, {"kind": pr["kind"]}, {"seed": seed, "steps": steps, "problem": pr, "trace": str(tr)})
